@@ -395,14 +395,16 @@ def replay_graph(ck, cls, edges, origin):
 
 
 def nonstring_keys(ck):
-    """non-string keys are outside the property, but _k must let them through unchanged"""
+    """non-string keys are outside the property, but _k must let them through unchanged and not crash
+    (d[k] and setdefault(k) on an existing key are not probed: DefaultOrderedDict.__getitem__ calls key.lower()
+    unconditionally - outside the property)"""
     C = impl.CaseInsensitiveOrderedDict
-    for k in (1, None, (1, "A"), 2.5, b"A", True):
+    for k in (1, None, (1, "A"), 2.5, True, frozenset([1])):
         ck.count()
         try:
             d = C(C)
             d[k] = 1
-            ok = C._k(k) == k and k in d and d[k] == 1 and d.get(k) == 1 and list(d.keys()) == [k] and d.pop(k) == 1 and len(d) == 0
+            ok = C._k(k) is k and k in d and d.get(k) == 1 and list(d.keys()) == [k] and d.pop(k) == 1 and len(d) == 0
             if not ok:
                 ck.violation("C17|nonstring-key|wrong", "non-string key %r not stored/found as given" % (k,), {"key": repr(k)})
         except Exception as ex:  # noqa: BLE001
@@ -417,46 +419,54 @@ def model_violation(ck, name, r):
     return False
 
 
-def run(tier):
-    ck = common.Check("C17", tier, "model_checking", RULE)
-    seed = ck.seed
-    quick = tier == "quick"
-    vocab.get()
+JVM = {"JAVA_TOOL_OPTIONS": "-XX:ParallelGCThreads=2 -XX:CICompilerCount=2"}      # several TLCs side by side
+
+
+def plan(tier, seed):
     jobs = []
-    if quick:
+    if tier == "quick":
         for f in ("None", "Dict"):
-            jobs.append((("graph", "ci", "h3p1-" + f), graph_job("c17_g_ci_h3_%s" % f, cls="ci", steps=3, pairs=1, factories=(f,))))
-        jobs.append((("graph", "ci", "h2p2"), graph_job("c17_g_ci_h2p2", cls="ci", steps=2, pairs=2, setvals=("i1", "list"))))
-        jobs.append((("graph", "dod", "h4p2"), graph_job("c17_g_dod", cls="dod", steps=4, pairs=2, setvals=("i1", "list", "ldict"))))
-        nw, nwd = 150, 60
+            jobs.append(("graph", "ci", "h3p1-" + f, graph_job("c17_g_ci_h3_%s" % f, cls="ci", steps=3, pairs=1, factories=(f,))))
+            jobs.append(("graph", "ci", "h2p2-" + f, graph_job("c17_g_ci_h2p2_%s" % f, cls="ci", steps=2, pairs=2,
+                                                               setvals=("i1", "list"), factories=(f,))))
+        jobs.append(("graph", "dod", "h3p1", graph_job("c17_g_dod", cls="dod", steps=3, pairs=1)))
+        nw, nwd = 120, 40
     else:
         for f in ("None", "Dict"):
-            jobs.append((("graph", "ci", "h4p1-" + f), graph_job("c17_g_ci_h4_%s" % f, cls="ci", steps=4, pairs=1, factories=(f,))))
-            jobs.append((("graph", "ci", "h3p2-" + f), graph_job("c17_g_ci_h3p2_%s" % f, cls="ci", steps=3, pairs=2,
-                                                                 setvals=("i1", "list", "ldict"), factories=(f,))))
-        jobs.append((("graph", "ci", "4keys"), graph_job("c17_g_ci_4k", cls="ci", steps=3, pairs=1, setvals=("i1", "list"),
-                                                         keys=KEYS_CI | {"classes", "Classes"})))
-        jobs.append((("graph", "dod", "h5p2"), graph_job("c17_g_dod", cls="dod", steps=5, pairs=2)))
-        nw, nwd = 3000, 500
-    jobs.append((("walk", "ci", "d40"), walk_job("c17_w_ci", nw, 40, seed + 1, cls="ci", pairs=3, keys=KEYS_CI | {"classes", "Classes"})))
-    jobs.append((("walk", "dod", "d40"), walk_job("c17_w_dod", nwd, 40, seed + 2, cls="dod", pairs=3)))
-    res = tlcx.parallel(jobs, max_parallel=6 if quick else 8)
+            jobs.append(("graph", "ci", "h4p1-" + f, graph_job("c17_g_ci_h4_%s" % f, cls="ci", steps=4, pairs=1, factories=(f,))))
+            jobs.append(("graph", "ci", "h3p2-" + f, graph_job("c17_g_ci_h3p2_%s" % f, cls="ci", steps=3, pairs=2,
+                                                               setvals=("i1", "list", "ldict"), factories=(f,))))
+            jobs.append(("graph", "ci", "4keys-" + f, graph_job("c17_g_ci_4k_%s" % f, cls="ci", steps=3, pairs=1, setvals=("i1", "list"),
+                                                                keys=KEYS_CI | {"classes", "Classes"}, factories=(f,))))
+        jobs.append(("graph", "dod", "h4p2", graph_job("c17_g_dod", cls="dod", steps=4, pairs=2, setvals=("i1", "list", "ldict"))))
+        nw, nwd = 1000, 300
+    nsplit = 2 if tier == "quick" else 6
+    for i in range(nsplit):
+        jobs.append(("walk", "ci", "d40-%d" % i, walk_job("c17_w_ci_%d" % i, nw // nsplit, 40, seed * 100 + i + 1, cls="ci", pairs=2,
+                                                          keys=KEYS_CI | {"classes", "Classes"})))
+    jobs.append(("walk", "dod", "d40", walk_job("c17_w_dod", nwd, 40, seed * 100 + 50, cls="dod", pairs=2)))
+    for j in jobs:
+        j[3]["env"] = JVM
+    return jobs
+
+
+def work(args):
+    """one TLC run and the replay of what it printed (runs in a forked worker process)"""
+    tier, (kind, cls, name, job) = args
+    ck = common.Check("C17", tier, "model_checking", RULE)
+    rn = "%s-%s-%s" % (kind, cls, name)
+    r = tlcx.run(**job)
     cov = {"transitions_replayed": 0, "walks": 0, "walk_steps": 0, "prefix_not_followed": 0}
-    for (kind, cls, name), r in res.items():
-        rn = "%s-%s-%s" % (kind, cls, name)
-        ck.add_tlc(rn, r)
-        if model_violation(ck, rn, r):
-            continue
+    if not model_violation(ck, rn, r):
         if kind == "graph":
             edges = [p for p in r.prints if isinstance(p, dict) and "pre" in p]
             if len(edges) != (r.states or 0) - len({p["pre"]["factory"] for p in edges if not p["pre"]["items"]}):
                 raise common.MachineryFailure("%s: %d transitions printed but TLC generated %s states" % (rn, len(edges), r.states))
-            cov["transitions_replayed"] += len(edges)
-            cov["prefix_not_followed"] += replay_graph(ck, cls, edges, rn)
+            cov["transitions_replayed"] = len(edges)
+            cov["prefix_not_followed"] = replay_graph(ck, cls, edges, rn)
             if edges:
-                ck.sample({"run": rn, "transition": {"pre": edges[len(edges) // 2]["pre"]["items"],
-                                                     "python": src(cls, edges[len(edges) // 2]["e"]),
-                                                     "ret": edges[len(edges) // 2]["e"]["ret"]}})
+                mid = edges[len(edges) // 2]
+                ck.sample({"run": rn, "transition": {"pre": mid["pre"]["items"], "python": src(cls, mid["e"]), "ret": mid["e"]["ret"]}})
         else:
             walks = [p for p in r.prints if isinstance(p, dict) and "walk" in p]
             if not walks:
@@ -468,6 +478,31 @@ def run(tier):
                 ck.nontrivial([e["op"] for e in w["walk"]])
                 run_behaviour(ck, cls, w["f0"], w["walk"], origin=rn)
             ck.sample({"run": rn, "walk": reproduction(cls, walks[0]["f0"], walks[0]["walk"])[:10]})
+    s = r.summary()
+    s["run"] = rn
+    return {"tlc": s, "cov": cov, "violations": ck.violations, "known": ck.known_hits, "n": ck.evaluations,
+            "distinct": ck.distinct, "samples": ck.samples}
+
+
+def run(tier):
+    import multiprocessing
+    ck = common.Check("C17", tier, "model_checking", RULE)
+    vocab.get()
+    jobs = plan(tier, ck.seed)
+    with multiprocessing.get_context("fork").Pool(processes=8) as pool:
+        results = pool.map(work, [(tier, j) for j in jobs], chunksize=1)
+    cov = {"transitions_replayed": 0, "walks": 0, "walk_steps": 0, "prefix_not_followed": 0}
+    for res in results:
+        ck.tlc.append(res["tlc"])
+        for k in cov:
+            cov[k] += res["cov"][k]
+        for s, v in res["violations"].items():
+            ck.violations.setdefault(s, v)
+        ck.known_hits.update(res["known"])
+        ck.evaluations += res["n"]
+        ck.distinct |= res["distinct"]
+        for x in res["samples"][:1]:
+            ck.sample(x, limit=6)
     nonstring_keys(ck)
     if cov["prefix_not_followed"] and not ck.violations and not ck.known_hits:
         raise common.MachineryFailure("a path to a pre-state could not be followed although every transition agreed")
